@@ -101,7 +101,14 @@ fn allocate_jit_memory_unix(_src: &FuncPtrInternal, code_size: usize) -> *mut u8
             if ptr != libc::MAP_FAILED {
                 let allocated = ptr as u64;
                 let diff = allocated.abs_diff(original_addr);
-                if diff <= max_range {
+                // A branch reaches [-max_range, +max_range): exactly +max_range is one step too far
+                // for the AArch64 `B` (signed 26-bit word offset), so do not accept it.
+                let in_range = if allocated >= original_addr {
+                    diff < max_range
+                } else {
+                    diff <= max_range
+                };
+                if in_range {
                     return ptr as *mut u8;
                 } else {
                     unsafe { libc::munmap(ptr, code_size) };
@@ -165,7 +172,13 @@ fn allocate_jit_memory_windows(_src: &FuncPtrInternal, code_size: usize) -> *mut
             if !ptr.is_null() {
                 let allocated = ptr as u64;
                 let diff = allocated.abs_diff(original_addr);
-                if diff <= max_range {
+                // exactly +max_range is not encodable by `B` (see allocate_jit_memory_unix)
+                let in_range = if allocated >= original_addr {
+                    diff < max_range
+                } else {
+                    diff <= max_range
+                };
+                if in_range {
                     return ptr as *mut u8;
                 } else {
                     unsafe {
